@@ -43,7 +43,7 @@ fn main() {
                 required_faults: &["power_loss"],
             },
             vec![(
-                PhaseSpec { label: "mixed", quick_runs: 40000, thorough_runs: 3000000, quick_budget_s: 50.0, thorough_budget_s: 900.0 },
+                PhaseSpec { label: "mixed", quick_runs: 150000, thorough_runs: 3000000, quick_budget_s: 90.0, thorough_budget_s: 900.0 },
                 Arc::new(c08::H),
             )],
         ),
